@@ -24,9 +24,14 @@ Definition std_env (off:nat) (vars:list (list N * value)) : env :=
      fn_exists := fun n k => match find_builtin (fold_name n) gen_builtins with None => NotFound | Some (a, p) => fn_result (arity_of_g a) p k end;
      var_exists := fun n => match lookup (fold_name n) vars with Some _ => true | None => false end |}.
 (* vars are given with folded names. The result of the script and the validator's verdict, or the front end's error *)
-Inductive sres := SNoCompile (c:cres) | SRan (r:res value) (check:option Generic.cerr) (optimized:res value).
+Inductive sres := SNoCompile (c:cres) | SRan (r:res value) (check:option Generic.cerr) (optimized:res value) (ost:Generic.ostatus) (otree:expr).
 Definition run_script (off:nat) (vars:list (list N * value)) (text:list N) : sres :=
   match Front.compile text with
   | COk e => let E := std_env off vars in
-             SRan (fst (eval_t E e)) (check_names E e) (fst (eval_t E (snd (fst (optimize_t E (opt_fuel e) e [])))))
+             let o := fst (optimize_t E (opt_fuel e) e []) in
+             SRan (fst (eval_t E e)) (check_names E e) (fst (eval_t E (snd o))) (fst o) (snd o)
   | c => SNoCompile c end.
+
+(* evaluation against a static environment that holds these variables (later entries of the list were added later and win) and the standard library *)
+Definition eval_static (vars:list (list N * value)) (e:expr) : res value :=
+  fst (eval_t (std_env 1 (rev (map (fun nv => (fold_name (fst nv), snd nv)) vars))) e).
